@@ -452,6 +452,33 @@ func init() {
 }
 
 
+// handRx is a hand-written pattern with a constructive sample.
+type handRx struct {
+	pat    string
+	sample func(t *verifsim.Tape) string
+}
+
+func (h handRx) String() string                 { return h.pat }
+func (h handRx) Sample(t *verifsim.Tape) string { return h.sample(t) }
+
+// bodyPatterns: patterns whose TEXT holds characters a generator has to carry into Go source with care (a
+// backslash or a double quote next to a literal carriage return): offered to body attributes only,
+// the one place whose values may hold a CR.
+var bodyPatterns []string
+
+func init() {
+	word := func(t *verifsim.Tape) string { return strgen.Nstr(t, strgen.Letters, 1, 6) }
+	for _, h := range []handRx{
+		{"^\\w+: [^\r\n]*$", func(t *verifsim.Tape) string { return word(t) + ": " + strgen.Nstr(t, strgen.Letdig+" ", 0, 8) }},
+		{"^\"[^\"\r]*\"$", func(t *verifsim.Tape) string { return "\"" + strgen.Nstr(t, strgen.Letdig, 0, 8) + "\"" }},
+		// (a pattern whose matches hold a back quote is left out: goa puts the example it draws for the attribute into
+		// a raw string literal of the generated CLI usage text, which then does not parse - C01 territory, by-product)
+	} {
+		patternSamples[h.pat] = h
+		bodyPatterns = append(bodyPatterns, h.pat)
+	}
+}
+
 // MustBeSet reports optional collection attributes that carry a minimum
 // length. goa validates the length of a nil slice or map as 0, so leaving such
 // an attribute unset is rejected (known finding, see known_findings.jsonl);
